@@ -229,9 +229,14 @@ func (s *fsm12) finish(ctx context.Context, c Conn) (State, error) {
 	select {
 	case state := <-c.RecvHandshake():
 		close(state.Done)
-		if s.state.IsClient || !state.IsRetransmit {
-			// Only a retransmission of the peer's last flight shows that our
-			// final flight was lost; anything else must not trigger a resend.
+		if !s.currentFlight.IsLastSendFlight() || !state.IsRetransmit {
+			// Only the side that sent the last flight of the handshake
+			// (the server's flight 6, the client's flight 5b) has anything
+			// to re-send, and only a retransmission of the peer's last
+			// flight shows that it was lost. The other side completed on
+			// receiving that flight: re-sending its own one would put it
+			// back into the waiting state with the retransmission timer
+			// armed after the handshake has completed.
 			return StateFinished, nil
 		}
 
